@@ -3,7 +3,7 @@ from .. import lib, runner
 
 PROP = "C17"
 THEOREMS = ["Bld.as_map_unfold", "Bld.size_pow2", "Bld.place_spec", "Bld.as_map_complete", "Bld.name_is_scope_path", "Bld.scope_push_pop", "Bld.frozen_refuses", "Bld.refusal_atomic", "Bld.offset_multiple_guard"]
-IMPORTS = ["SocVerif"]
+IMPORTS = ["SocVerif.Props.C17"]
 
 
 def run(rep, tier):
